@@ -8,6 +8,7 @@ combination is observed on Frame.hide / Frame.hide_line / callee presence.  Iden
 random operation sequences against a model keyed by id(), under an icontract invariant.
 """
 import sys
+import warnings
 
 PROPERTY = "C12"
 LEVEL = "exploration"
@@ -29,7 +30,8 @@ REQUIRED_COUNTERS = {"towers": {"quick": 3000, "thorough": 60000},
                      "non_function_wrappers": {"quick": 1000, "thorough": 20000},
                      "nest_same_name_deeper_in_earlier_sibling": {"quick": 300, "thorough": 6000},
                      "late_customizations": {"quick": 100, "thorough": 400},
-                     "stacked_registrations": {"quick": 50, "thorough": 200}}
+                     "stacked_registrations": {"quick": 50, "thorough": 200},
+                     "lifecycle_moments": {"quick": 500, "thorough": 2000}}
 SHARD_TIMEOUT = {"quick": 400, "thorough": 5400}
 INTERPS = ["3.12", "3.11", "3.10", "3.9"]
 
@@ -389,6 +391,100 @@ def worker(spec):
             problems.append("elaborate_frame hook registered after earlier extractions is not used")
         if problems:
             res.violation(kind="customization registered late is ignored", problems=problems, interp=interp)
+
+    # ---- every moment of a generator's / coroutine's / async generator's life at which it has a frame -------
+    # (created but not started, suspended after each step, suspended inside a finally while being closed)
+    @types.coroutine
+    def _trap():
+        yield
+
+    def life_gen():
+        try:
+            yield 1
+            yield 2
+        finally:
+            yield 3
+
+    async def life_coro():
+        try:
+            await _trap()
+            await _trap()
+        finally:
+            await _trap()
+
+    async def life_agen():
+        try:
+            yield 1
+            yield 2
+        finally:
+            await _trap()
+
+    def _step(kind, obj, how):
+        try:
+            if kind == "agen":
+                aw = obj.asend(None) if how == "next" else obj.athrow(GeneratorExit)
+                try:
+                    aw.send(None)
+                    return aw   # suspended in the trap inside the finally: keep the awaitable alive
+                except StopIteration:
+                    return None
+            if how == "next":
+                obj.send(None)
+            else:
+                obj.throw(GeneratorExit)
+        except (StopIteration, StopAsyncIteration, GeneratorExit):
+            pass
+        return None
+
+    for rep in range(6 * scale):
+        for kind, proto in (("gen", life_gen), ("coro", life_coro), ("agen", life_agen)):
+            nm = "life_%s_%d" % (kind, rep)
+            fn = types.FunctionType(proto.__code__.replace(co_name=nm), dict(globals(), _trap=_trap), nm, None,
+                                    proto.__closure__)
+            seen = []
+            use_customize = rep % 2 == 0
+            if use_customize:
+                customize(fn, hide=True)
+            else:
+                @elaborate_frame.register(fn)
+                def _life(frame, nxt, seen=seen):
+                    seen.append(frame.pyframe.f_code)
+                    frame.hide = True
+            obj = fn()
+            keep = None
+            problems = []
+            for moment, how in (("not started", None), ("after first step", "next"), ("after second step", "next"),
+                                ("in finally while closing", "close")):
+                if how is not None:
+                    keep = _step(kind, obj, how)
+                del seen[:]
+                res.evaluations += 1
+                res.count("lifecycle_moments")
+                with warnings.catch_warnings():
+                    warnings.simplefilter("ignore")
+                    st = stackscope.extract(obj)
+                mine = [f for f in st.frames if f.pyframe.f_code is fn.__code__]
+                if len(mine) != 1:
+                    problems.append("%s: %d frames of the target's code (error %r)" % (moment, len(mine), st.error))
+                    continue
+                if mine[0].hide is not True:
+                    problems.append("%s: customization not applied to the frame running the registered code" % moment)
+                if not use_customize and seen != [fn.__code__]:
+                    problems.append("%s: hook ran %d times" % (moment, len(seen)))
+                res.nontrivial("lifecycle", kind, moment, use_customize)
+            try:
+                if keep is not None:
+                    keep.close()
+                if kind == "agen":
+                    pass
+                else:
+                    obj.close()
+            except BaseException:  # noqa
+                pass
+            if problems:
+                res.violation(kind="customization depends on the moment in the target's life", target=kind,
+                              form="customize" if use_customize else "elaborate_frame.register", problems=problems[:4],
+                              interp=interp)
 
     # ---- customize options ----------------------------------------------------------------------------
     combos = 0
